@@ -38,6 +38,11 @@ const CLASSES: &[&str] = &["x", "y", "zz"];
 impl Prop for C17 {
     type Case = Case;
     const ID: &'static str = "C17";
+    const FUZZ_TARGET: Option<&'static str> = Some("groups_tensor");
+    const FUZZ_RUNS: u64 = 400000;
+    fn fuzz_decode(bytes: &[u8]) -> Option<Case> {
+        crate::fuzzdec::c17(bytes)
+    }
     const RULE: &'static str = "batches of 1-6 Unicode texts (fragment pools incl. special-token spellings, multi-code-point clusters, empty strings) x byte tokenizer configs (byte/code-point groups, graphemes, pad_to_multiple_of, mean/sum) x special configs with prefix/suffix x ignore_special_tokens x train task (whitespace correction, generation with/without input masking and separator, conditional generation, classification). Oracle: exact expected group structure per tokenization and sum of group lengths = #ids; sparse COO matrix: one entry per token, indices inside the declared size, each (batch, token) once, token->group assignment equals the grouping, per-group weights sum to 1 (mean) / are all 1 (sum), padding mask; tensorised id/label matrices = item values followed only by padding, true lengths, width = max length. Non-trivial: batch of >= 2 items of different lengths with a prefix or suffix and a multi-code-point cluster. Distinct = distinct serialised case.";
     const ESSENTIAL: &'static [&'static str] = &["bytes_groups", "code_point_groups", "mean", "sum", "special_in_text", "prefix_suffix", "multi_cp_cluster", "empty_text", "task_ws", "task_gen", "task_cond", "task_cls", "different_lengths"];
 
